@@ -25,7 +25,9 @@ RULE = (
     "(incl. mixed) of every bound polynomial has a non-zero coefficient; for ENO additionally the nodal flux "
     "has degree >= 2. Part compiled_wrappers: the public compiled wrappers run on float64 grids holding such "
     "polynomials sampled on the simulator-convention position field (non-cubic shapes); interior cells are "
-    "compared with the analytic operator within 64*eps*S. Distinct = digest of the drawn case."
+    "compared with the analytic operator within 64*eps*S; the Laplacian-filter generator (both types, orders 1..5, scalar/vector) "
+    "is run on quadratics and compared deep in the interior with q + (h^2/4) lap q (convolution, order 1) resp. q. "
+    "Distinct = digest of the drawn case."
 )
 ASSUMPTIONS = [
     "float literals in stencils (0.8333..., 0.25, 0.5) are rationalised with limit_denominator(10**6)",
@@ -265,7 +267,8 @@ def _body_exact(case, ctx):
 
 WRAPPERS = ["diffusion_flux_2d", "inplane_curl_2d", "outplane_curl_2d", "update_forcing_2d", "update_penalised_2d",
             "advection_flux_2d", "diffusion_flux_3d", "diffusion_flux_vec_3d", "curl_3d", "divergence_3d",
-            "update_forcing_3d", "update_penalised_3d", "stretching_flux_3d", "advection_flux_3d"]
+            "update_forcing_3d", "update_penalised_3d", "stretching_flux_3d", "advection_flux_3d",
+            "filter_multiplicative_3d", "filter_convolution_3d"]
 
 
 def _wrapper_variants(tier):
@@ -278,7 +281,7 @@ def _wrapper_strategy(tier, w):
     @st.composite
     def case(draw):
         dim = 2 if w.endswith("2d") else 3
-        shape = draw(gen.grid_shape(dim, 5, hi2 if dim == 2 else hi3))
+        shape = draw(gen.grid_shape(dim, 5 if not w.startswith("filter") else 13, hi2 if dim == 2 else max(hi3, 15)))
         coef = gen.floats(-2.0, 2.0, 32)
         return {
             "wrapper": w,
@@ -288,6 +291,8 @@ def _wrapper_strategy(tier, w):
             "prefactor": draw(gen.floats(-3.0, 3.0, 32)),
             "threads": draw(st.sampled_from([False, 1, 2])),
             "deg_f": draw(st.integers(0, 2)),
+            "filter_order": draw(st.integers(1, 5)),
+            "filter_vector": draw(st.booleans()),
         }
 
     return case()
@@ -382,6 +387,8 @@ def _body_wrappers(case, ctx):
     pos = kernels.position_field(shape, dx, np.float64)
     pre = float(case["prefactor"])
     thr = case["threads"]
+    if name.startswith("filter"):
+        return _filter_on_quadratics(case, ctx, shape, dx, pos)
     with ctx.repo_call(f"generating {name}"):
         k = _get_wrapper(name, thr)
     P = {key: FPoly(c, 2, dim) for key, c in case["polys"].items()}
@@ -516,6 +523,42 @@ def _body_wrappers(case, ctx):
     ctx.note(nontrivial=len(set(shape)) > 1, labels=[name, "noncubic" if len(set(shape)) > 1 else "cubic"])
 
 
+def _filter_on_quadratics(case, ctx, shape, dx, pos):
+    """Laplacian filter operators of order n on quadratic fields, deep in the interior: each 1-D filter Laplacian maps a
+    quadratic to the constant -(h^2/4) d^2 q, and annihilates constants, hence
+    convolution order 1: q + (h^2/4) lap q ; convolution order >= 2 and multiplicative of any order: q."""
+    import sopht.numeric.eulerian_grid_ops as spne
+
+    ftype = "multiplicative" if "multiplicative" in case["wrapper"] else "convolution"
+    order = int(case["filter_order"])
+    vec = bool(case["filter_vector"])
+    bufs = np.full((2, *shape), 3.0e5)
+    with ctx.repo_call("gen_laplacian_filter_kernel_3d"):
+        k = spne.gen_laplacian_filter_kernel_3d(filter_order=order, filter_flux_buffer=bufs[0], field_buffer=bufs[1], real_t=np.float64,
+                                                num_threads=case["threads"], field_type="vector" if vec else "scalar", filter_type=ftype)
+    keys = ["Fx", "Fy", "Fz"] if vec else ["f"]
+    P = [FPoly(case["polys"][q], 2, 3) for q in keys]
+    f = np.stack([p(pos) for p in P])
+    f0 = f.copy()
+    with ctx.repo_call(f"laplacian filter {ftype} order {order}"):
+        if vec:
+            k(vector_field=f)
+        else:
+            k(scalar_field=f[0])
+    eps = float(np.finfo(np.float64).eps)
+    deep = (slice(order + 1, -(order + 1)),) * 3
+    for c, p in enumerate(P):
+        lap = sum(p.d(v).d(v)(pos) for v in range(3))
+        want = f0[c] + (0.25 * dx * dx * lap if (ftype == "convolution" and order == 1) else 0.0)
+        err = np.abs(f[c] - want)[deep]
+        tol = 64 * eps * (p.absval(pos)[deep] + 1.0) * 2.0 ** order
+        if err.size and np.any(err > tol):
+            i = np.unravel_index(int(np.argmax(err - tol)), err.shape)
+            raise Violation(f"{ftype} Laplacian filter of order {order} maps a quadratic to {f[c][deep][i]!r} at a deep-interior cell, the "
+                            f"continuous counterpart gives {want[deep][i]!r} (shape {list(shape)}, dx {dx:.4g})")
+    ctx.note(nontrivial=len(set(shape)) > 1, labels=[case["wrapper"], f"filter_order_{order}"])
+
+
 def _spec_inventory_cases(tier):
     return [{"inventory": True}]
 
@@ -542,7 +585,7 @@ PARTS = [
     Part(name="exact_stencils", strategy=_case_strategy, body=_body_exact,
          examples={"quick": 6000, "thorough": 120000}, shards={"quick": 8, "thorough": 16}, variants=_spec_variants),
     Part(name="compiled_wrappers", strategy=_wrapper_strategy, body=_body_wrappers,
-         examples={"quick": 420, "thorough": 8000}, shards={"quick": 7, "thorough": 14}, variants=_wrapper_variants),
+         examples={"quick": 480, "thorough": 8000}, shards={"quick": 8, "thorough": 16}, variants=_wrapper_variants),
     Part(name="stencil_inventory", strategy=None, body=_body_inventory, examples={"quick": 1, "thorough": 1},
          exhaustive=_spec_inventory_cases),
 ]
